@@ -126,6 +126,8 @@ class TextureVisuals(Visuals):
         copied : TextureVisuals
           Contains the same information in a new object
         """
+        # other per-vertex data only fits the full set of vertices
+        keep_attributes = uv is None
         if uv is None:
             uv = self.uv
         if uv is not None:
@@ -135,6 +137,11 @@ class TextureVisuals(Visuals):
             material=self.material.copy(),
             face_materials=copy.copy(self.face_materials),
         )
+        if keep_attributes:
+            # i.e. the `color` stored by the glTF loader
+            for key, value in self.vertex_attributes.items():
+                if key != "uv":
+                    copied.vertex_attributes[key] = copy.deepcopy(value)
 
         return copied
 
